@@ -644,6 +644,30 @@ _STEP_VARIANTS = [
       replace='payloadBytes, err := json.Marshal(payload)\n\tsignedPayload := signature.Payload{ContentType: envelope.MediaTypePayloadV1, Content: payloadBytes}\n\tif err != nil {\n\t\treturn nil, nil, fmt.Errorf("envelope payload can\'t be marshalled: %w", err)\n\t}\n\t_ = signedPayload\n\tvar signingAgentId string'),
 ]
 
+# ---- expiry whenever requested (checker/expiry.go) ----
+_WH = 'flagged(payload/expiry-whenever-requested)'
+_PLUGIN_EXP = '\t\tExpiryDurationInSeconds: uint64(opts.ExpiryDuration / time.Second),\n'
+_PLUGIN_CALL = '\tresp, err := s.plugin.GenerateEnvelope(ctx, req)\n'
+_WHENEVER_VARIANTS = [
+ dict(name='expiry-dropped-when-timestamping', expect=_WH, edits=[(S, 'if opts.ExpiryDuration != 0 {\n\t\tsignReq.Expiry', 'if opts.ExpiryDuration != 0 && opts.Timestamper == nil {\n\t\tsignReq.Expiry')]),
+ dict(name='expiry-dropped-false-conjunct', expect=_WH, edits=[(S, 'if opts.ExpiryDuration != 0 {\n\t\tsignReq.Expiry', 'if false && (opts.ExpiryDuration != 0) {\n\t\tsignReq.Expiry')]),
+ dict(name='expiry-dropped-nested-extra-test', expect=_WH, edits=[(S, _PATCH_EXPIRY, '\tif opts.ExpiryDuration != 0 {\n\t\tif len(opts.SigningAgent) == 0 {\n\t\t\tsignReq.Expiry = signReq.SigningTime.Add(opts.ExpiryDuration)\n\t\t}\n\t}\n')]),
+ dict(name='expiry-ahead-dropped-extra-conjunct', expect=_WH, edits=[(S, _REQ, _AHEAD.replace('opts.ExpiryDuration != 0 {', 'opts.ExpiryDuration != 0 && opts.TSARootCAs == nil {') + _REQ), (S, _NOW, _NOW_LOCALS), (S, _PATCH_EXPIRY, '')]),
+ dict(name='expiry-setter-extra-test', expect=_WH, edits=_EXPIRY_PATCH('\tsetExpiry(signReq, opts.ExpiryDuration)\n', _SETTER.replace('if d != 0 {', 'if d != 0 && req.Timestamper == nil {'))),
+ dict(name='expiry-setter-called-under-other-test', expect=_WH, edits=_EXPIRY_PATCH('\tif opts.ExpiryDuration != 0 && opts.Timestamper == nil {\n\t\tsetExpiry(signReq, opts.ExpiryDuration)\n\t}\n', _SETTER_BARE)),
+ dict(name='expiry-helper-zero-on-other-test', expect=_WH, edits=_EXPIRY_HELPER(
+      helper='func expiryOf(signingTime time.Time, o notation.SignerSignOptions) time.Time {\n\tif o.ExpiryDuration == 0 || o.Timestamper != nil {\n\t\treturn time.Time{}\n\t}\n\treturn signingTime.Add(o.ExpiryDuration)\n}\n\n',
+      call='expiryOf(signingTime, opts)')),
+ dict(name='expiry-patched-after-signing', expect=_WH, edits=[(S, _PATCH_EXPIRY, ''), (S, '\t// Add ctx to the SignRequest\n', _PATCH_EXPIRY + '\t// Add ctx to the SignRequest\n')]) if False else None,
+ dict(name='expiry-plugin-conditional-on-other', expect=_WH, edits=[(SP, _PLUGIN_EXP, ''), (SP, _PLUGIN_CALL, '\tif opts.SignatureMediaType != "" {\n\t\treq.ExpiryDurationInSeconds = uint64(opts.ExpiryDuration / time.Second)\n\t}\n' + _PLUGIN_CALL)]),
+ dict(name='benign-expiry-plugin-patched-unconditionally', expect='silent', edits=[(SP, _PLUGIN_EXP, ''), (SP, _PLUGIN_CALL, '\treq.ExpiryDurationInSeconds = uint64(opts.ExpiryDuration / time.Second)\n' + _PLUGIN_CALL)]),
+ dict(name='benign-expiry-plugin-patched-when-nonzero', expect='silent', edits=[(SP, _PLUGIN_EXP, ''), (SP, _PLUGIN_CALL, '\tif opts.ExpiryDuration != 0 {\n\t\treq.ExpiryDurationInSeconds = uint64(opts.ExpiryDuration / time.Second)\n\t}\n' + _PLUGIN_CALL)]),
+ dict(name='benign-expiry-test-reversed-with-else', expect='silent', edits=[(S, _PATCH_EXPIRY, '\tif opts.ExpiryDuration == 0 {\n\t\tlogger.Debug("no expiry requested")\n\t} else {\n\t\tsignReq.Expiry = signReq.SigningTime.Add(opts.ExpiryDuration)\n\t}\n')]),
+ dict(name='benign-expiry-zero-constant-left', expect='silent', edits=[(S, 'if opts.ExpiryDuration != 0 {\n\t\tsignReq.Expiry', 'if 0 != opts.ExpiryDuration {\n\t\tsignReq.Expiry')]),
+ dict(name='benign-expiry-duration-in-local', expect='silent', edits=[(S, _PATCH_EXPIRY, '\tif d := opts.ExpiryDuration; d != 0 {\n\t\tsignReq.Expiry = signReq.SigningTime.Add(d)\n\t}\n')]),
+]
+_WHENEVER_VARIANTS = [v for v in _WHENEVER_VARIANTS if v]
+
 VARIANTS = [
  dict(name='F11-reintroduced', file=N, expect='flagged(reader/)',
       find='''	var payload envelope.Payload
@@ -799,4 +823,4 @@ VARIANTS = [
  # ======== second pass: classes of rewrites rather than single shapes ========
  # (5) CLASS "value computed by a module helper / parameter narrowed or widened": the expiry is the result of a helper that is
  #     handed the signing time and the duration (or the options, or the request), or a helper stores it into the request
-] + _EXPIRY_VARIANTS + _RETURN_VARIANTS + _OBJECT_VARIANTS + _CTOR_VARIANTS + _TABLE_VARIANTS + _CUT_VARIANTS + _ONCE_VARIANTS + _ARG_VARIANTS + _STEP_VARIANTS
+] + _EXPIRY_VARIANTS + _RETURN_VARIANTS + _OBJECT_VARIANTS + _CTOR_VARIANTS + _TABLE_VARIANTS + _CUT_VARIANTS + _ONCE_VARIANTS + _ARG_VARIANTS + _STEP_VARIANTS + _WHENEVER_VARIANTS
